@@ -252,6 +252,9 @@ pub enum Op {
     // ---- submissions (the API is chosen by the kind of handle found in the slot)
     /// fire and forget `Msg`: Addr::send / OwningAddr::send / Sender::send / WeakSender::try_send
     Send { h: Slot, id: u64, work: Vec<Work> },
+    /// `let f = sender.send(m); drop(sender); f.await`: the send future outlives the `Sender`
+    /// it was made from (it is not a handle: it keeps nothing alive)
+    SendThenDrop { h: Slot, id: u64, work: Vec<Work> },
     /// WeakSender::try_force_send
     ForceSend { h: Slot, id: u64, work: Vec<Work> },
     /// `Ask`: Addr::call / OwningAddr::call / Caller::call / WeakCaller::try_call
